@@ -128,6 +128,7 @@ class World:
         self.derived_checks = 0
         self.actions = []  # structured actions in order (for replaying prefixes)
         self.noise_kinds = collections.Counter()
+        self.excess = []  # parameters appended beyond the verb's maximum in the line just sent
 
     # ------------------------------------------------------------ plumbing
     def log(self, cid, line):
@@ -365,16 +366,46 @@ class World:
             raise Inconclusive("half-open connection got no answer")
         return self.finish_step(cid, exp, lines, pre, None)
 
+    def half_probe(self, cid, line):
+        """a command by a connection that was never welcomed (it may have claimed a nickname, it may have been
+        refused with 433 when it tried to complete): 451 and nothing else, whoever now owns the claimed nickname"""
+        c = self.clients[cid]
+        self.actions.append(["half_probe", cid, line])
+        pre = self.model.clone()
+        self.log(cid, "HALF-PROBE " + line)
+        verb = line.split()[0].upper()
+        props = {"C03", "C02"}
+        if verb in ("KILL", "DIE", "SQUIT", "WALLOPS", "STATS", "OPER", "MODE"):
+            props.add("C11")
+        exp = M.Exp("HALF", tuple(sorted(props)))
+        exp.need("451")
+        exp.only = {"451"}
+        exp.shape = "half:probe:" + verb
+        exp.cover.append(("half", "probe", verb, self.model.conn[cid].get("claim") in self.model.users))
+        c.send(line)
+        try:
+            lines = self._marker(c, "VSYNC%d" % (self.step_no + 1))
+        except wire.Closed as ex:
+            return self.finish_step(cid, exp, ex.lines, pre, ex.kind)
+        except wire.Timeout:
+            raise Inconclusive("half-open connection got no answer")
+        return self.finish_step(cid, exp, lines, pre, None)
+
     def act(self, cid, cmd):
         """one command by a registered client, barrier, check"""
         c = self.clients[cid]
         self.actions.append(["act", cid, cmd])
         line = render(cmd)
+        self.excess = []
         if self.serial_noise is not None:
             line = self.vary(line, self.model.conn[cid]["nick"])
         self.log(cid, line)
         pre = self.model.clone()
         exp = self.model.step(cid, cmd)
+        if self.serial_noise is not None:
+            # the line went out in another serialisation of the same message (and possibly with excess parameters):
+            # whatever differs from the model now also concerns the parsing property
+            exp.props = set(exp.props) | {"C13"}
         c.send(line)
         actor_closed = None
         lines = []
@@ -454,6 +485,15 @@ class World:
         if src is None and r.random() < 0.25:
             src = r.choice([nick or "x", "%s!~u@h" % (nick or "x"), "irc.example.org"])
             kinds.append("source")
+        maxar = {"PART": 2, "TOPIC": 2, "KICK": 3, "NICK": 1, "PRIVMSG": 2, "NOTICE": 2, "INVITE": 2, "AWAY": 1,
+                 "WALLOPS": 1, "KILL": 2, "OPER": 2, "JOIN": 2}.get(verb.upper())
+        if maxar is not None and len(params) == maxar and r.random() < 0.2 and params[-1] != "" \
+                and params[-1][0] != ":" and not any(ch.isspace() for ch in params[-1]):
+            # "every verb with every arity up to beyond its maximum": parameters beyond the last one the verb takes
+            # change nothing (possible only when the last real parameter can travel as a middle parameter)
+            self.excess = r.choice([["excess"], ["one", "two words"], ["#x"], ["al"], ["9"]])
+            params = list(params) + self.excess
+            kinds.append("excess")
         blanks = r.choice([1, 1, 2, 3])
         lead = r.choice([0, 0, 1, 2])
         tail = r.choice([0, 0, 1, 2])
@@ -869,7 +909,7 @@ class World:
             g = list(got.get(k, []))
             for (source, verb, params) in want.get(k, []):
                 self.deliveries_checked += 1
-                idx = next((i for i, m in enumerate(g) if _relay_eq(m, source, verb, params)), None)
+                idx = next((i for i, m in enumerate(g) if _relay_eq(m, source, verb, params, self.excess)), None)
                 if idx is None:
                     self.violate("relay-missing:" + verb, exp.props, exp.shape,
                                  "connection %s (%s) did not get :%s %s %s; got %s"
@@ -878,7 +918,7 @@ class World:
                 else:
                     g.pop(idx)
             for (source, verb, params) in opt.get(k, []):
-                idx = next((i for i, m in enumerate(g) if _relay_eq(m, source, verb, params)), None)
+                idx = next((i for i, m in enumerate(g) if _relay_eq(m, source, verb, params, self.excess)), None)
                 if idx is not None:
                     g.pop(idx)
             for m in g:
@@ -919,9 +959,14 @@ class World:
                          "connection %s got %r; accepted changes were %s" % (k, m.raw, allowed))
 
 
-def _relay_eq(m, source, verb, params):
-    if m.verb != verb or m.source != source or len(m.params) != len(params):
+def _relay_eq(m, source, verb, params, excess=()):
+    """`excess`: parameters the harness itself appended beyond the verb's maximum; this server relays some verbs by
+    echoing the received line, so they may ride along - the receiver still re-parses the same command, target and text"""
+    if m.verb != verb or m.source != source:
         return False
+    if len(m.params) != len(params):
+        if not excess or list(m.params[len(params):]) != list(excess) or len(m.params) != len(params) + len(excess):
+            return False
     return all(p is ANY or p == q for p, q in zip(params, m.params))
 
 
